@@ -19,4 +19,4 @@ one() {
   echo "$id alarms=$(wc -l < "$out")"
 }
 export -f one
-(ls -d "$1"/*/r* 2>/dev/null; ls -d "$1"/*-r* 2>/dev/null) | xargs -P 7 -I{} bash -c 'one {}' | sort
+(ls -d "$1"/*/r* 2>/dev/null; ls -d "$1"/*-r* 2>/dev/null) | xargs -P ${PAR:-7} -I{} bash -c 'one {}' | sort
